@@ -74,11 +74,28 @@ def timeLike (k : Kind) : Bool :=
   | some a => lookup axisTimeLike a == some "true"
   | none => false
 
-/-- does `_adjust_axis` set the property on this plot kind?  The only deviation from the documented
-    table: the log scales on a class that sets `skip_log`. -/
+/-- HAND-WRITTEN (not regenerated; tied by stream fig.core on the live figure): `Meteo._plot_core` puts the hour
+    labels on the MINOR ticks of the x-axis and hides the label of every major (date) tick
+    (`label.set_visible(0)`, the `else` branch taken by every label when the input has several dates and by the
+    last one otherwise).  `Output._adjust_axis` styles / relabels `ax.get_xticklabels()` = the major labels only. -/
+def majorLabelsHidden (plot : String) : Bool := plot == "meteo"
+
+/-- MERGE SWITCH for the proposed patch `fix_meteo_xrot.diff` (Meteo._plot_core rotates its hour labels by
+    `self.xrot`, next to the font size it already sets there): `true` = model of the repaired code (then
+    `-xrot` is shown on the meteogram), `false` = model of /repo as it is (known finding meteo-xrot).
+    Keep equal to `METEO_XROT_REPAIRED` of harness/props/c17.py. -/
+def meteoXrotRepaired : Bool := true
+
+/-- the (plot kind, property) pairs that the code does not show although documented -/
+def hidden (plot : String) (f : Field) : Bool :=
+  ((f == .xLog || f == .yLog) && (match Spec.Appearance.kindOf plot with | some k => skipLog k | none => false)) ||
+  (majorLabelsHidden plot && (f == .xTickLabels || (f == .xTickRotation && !meteoXrotRepaired)))
+
+/-- does `_adjust_axis` set the property on this plot kind?  The deviations from the documented table: the log
+    scales on a class that sets `skip_log`; the labels / rotation of the x ticks where the diagram hides the
+    labels of the major ticks. -/
 def shown (plot : String) (f : Field) : Bool :=
-  Spec.Appearance.applicable plot f &&
-  !((f == .xLog || f == .yLog) && (match Spec.Appearance.kindOf plot with | some k => skipLog k | none => false))
+  Spec.Appearance.applicable plot f && !hidden plot f
 
 /-- `_adjust_axis`: `if self.axis.is_time_like: xlim = [verif.util.date_to_datenum(lim) for lim in xlim]` -/
 def convertsDates (plot : String) : Bool :=
